@@ -137,7 +137,8 @@ def correspondence(rep, ctx):
         inv = rd.InventoryHP({nm: x}, u)
         N = inv.contents[nm]
         # amounts of the HP class live in Q(ln 2): N = q / ln2 for activity input
-        q = sympy.nsimplify(N * ln2) if kind == "activity" else N
+        # (no nsimplify here: it reads exact values below ~1e-30 as 0 — the stored amount is read as it is)
+        q = sympy.cancel(N * ln2) if kind == "activity" else N
         if not q.is_Rational:
             rep.inconclusive += 1
             continue
@@ -186,7 +187,7 @@ def correspondence(rep, ctx):
         except Exception as e:  # noqa: BLE001
             fail(f"InventoryHP({{{nm!r}: {x!r}}}, {u!r}) via {via}", f"raised {type(e).__name__}: {e}")
             continue
-        q = sympy.nsimplify(N * ln2) if kind == "activity" else N
+        q = sympy.cancel(N * ln2) if kind == "activity" else N       # not nsimplify: it reads exact values below ~1e-30 as 0
         try:
             qf = Fraction(str(sympy.N(q, 40)))
         except Exception:  # noqa: BLE001
